@@ -10,7 +10,8 @@ from harness import tlc as T
 from harness.core import canon
 from harness.decode import rational
 
-LABEL_SETS = [[0, 1], [3, 7, 11], ["b", "a"], [-1, 2], ["x", "Y", "z", "w"], [5, 1, 9, 2]]
+# string labels of unequal length, the first in sorted order being the shortest
+LABEL_SETS = [[0, 1], [3, 7, 11], ["on", "a"], [-1, 2], ["x", "Y", "zeta", "w"], [5, 1, 9, 2]]
 
 
 def dec_row(row):
@@ -158,6 +159,9 @@ def observe_regressor(seed):
     import joblib
     Xtr, ytr = E.make_panel(14, 1, 12, seed, noise=3.0)
     Xte, _ = E.make_panel(6, 1, 12, seed + 77, noise=3.0)
+    if seed % 2:   # un-normalised readings: a large level with small variation (every digit of the raw values counts)
+        Xtr = Xtr.applymap(lambda c: c * 0.003 + 101325.0)
+        Xte = Xte.applymap(lambda c: c * 0.003 + 101325.0)
     yv = np.array([float(i % 5) + 0.5 * (i % 2) for i in range(14)])
     with joblib.parallel_backend("threading"):
         reg = TimeSeriesForestRegressor(n_estimators=4, random_state=seed).fit(Xtr, yv)
